@@ -171,12 +171,12 @@ class Ctx:
                                  "bug, never a verdict about the code\n%s" % (module, cfg, r.error, r.out[-3000:]))
         return r
 
-    def tlc_trace(self, module, cfg, trace, label=None, timeout=1800, heap=None, extra_env=None):
+    def tlc_trace(self, module, cfg, trace, label=None, timeout=1800, heap=None, extra_env=None, cfg_text=None):
         """Stage C: validate a recorded trace. Returns (n_events, sorted bad indices (1-based), run)."""
         env = {"VERIF_TRACE": trace}
         if extra_env:
             env.update(extra_env)
-        r = self.tlc(module, cfg, label=label or module, env=env, workers=1, timeout=timeout, heap=heap)
+        r = self.tlc(module, cfg, label=label or module, env=env, workers=1, timeout=timeout, heap=heap, cfg_text=cfg_text)
         done = r.printed("VERIF_DONE")
         if not r.completed or not done:
             raise MachineryError("stage C: trace validation by %s did not finish: %s\n%s" % (module, r.error, r.out[-3000:]))
@@ -350,7 +350,7 @@ def drive_gen(ctx, cmd, n, extra=None, tag="gen"):
     return [r[0] for r in res], [r[1] for r in res]
 
 
-def judge(ctx, module, traces, cfg=None, label=None, timeout=1800, heap=None, extra_env=None):
+def judge(ctx, module, traces, cfg=None, label=None, timeout=1800, heap=None, extra_env=None, cfg_text=None):
     """Stage C for relational specs: returns (n_events, [(trace_path, index0, event)])."""
     cfg = cfg or module
 
@@ -358,7 +358,7 @@ def judge(ctx, module, traces, cfg=None, label=None, timeout=1800, heap=None, ex
         if os.path.getsize(tr) == 0:
             return 0, []
         n, bad, _ = ctx.tlc_trace(module, cfg, tr, label="%s %s" % (label or module, os.path.basename(tr)[-24:]),
-                                  timeout=timeout, heap=heap, extra_env=extra_env)
+                                  timeout=timeout, heap=heap, extra_env=extra_env, cfg_text=cfg_text)
         out = []
         if bad:
             evs = read_ndjson(tr)
@@ -392,7 +392,7 @@ def report_bad(ctx, bad, sig_fn, desc_fn, replay_fn, confirm_fn, max_report=6):
     return groups
 
 
-def confirm_by_cases(ctx, cmd, module, extra=None, cfg=None, extra_env=None):
+def confirm_by_cases(ctx, cmd, module, extra=None, cfg=None, extra_env=None, cfg_text=None):
     """Standard confirmation: re-run the driver on the single case of the replay object and re-judge."""
     def fn(rep):
         with ctx._lock:
@@ -402,7 +402,7 @@ def confirm_by_cases(ctx, cmd, module, extra=None, cfg=None, extra_env=None):
         write_ndjson(cf, rep["cases"])
         tr = cf + ".trace"
         ctx.drive([cmd, "-cases", cf, "-out", tr, "-seed", ctx.seed] + (rep.get("extra") or extra or []))
-        n, bad, _ = ctx.tlc_trace(module, cfg or module, tr, label="confirm", extra_env=extra_env)
+        n, bad, _ = ctx.tlc_trace(module, cfg or module, tr, label="confirm", extra_env=extra_env, cfg_text=cfg_text)
         return bool(bad)
     return fn
 
